@@ -136,6 +136,29 @@ def emit_extra(emit, js, need, N, Z, lst, float_mant_exp):
         emit("Definition software_version : option (N * N * N) := None.")
     emit("")
 
+    # sensor-data tables
+    from pyplumio.structures import outputs as SO, temperatures as ST, statuses as SS, modules as SM, mixer_sensors as MS
+    from pyplumio.structures import fuel_level as FL, alerts as AL
+    need(SS.STATUSES_SIZE == 4 and len(SS.STATUSES) == 4, "statuses")
+    need(list(SM.MODULES) == ["module_a", "module_b", "module_c", "ecolambda", "ecoster", "panel"], "modules")
+    need(SM.struct_version.format == "<BBB" and SM.struct_vendor.format == "<BB", "module structs")
+    need(MS.MIXER_SENSOR_SIZE == 8, "mixer sensor size")
+    emit(f"Definition n_outputs : N := {N(len(SO.OUTPUTS))}.")
+    emit(f"Definition n_temperatures : N := {N(len(ST.TEMPERATURES))}.")
+    emit(f"Definition fuel_level_offset : N := {N(FL.FUEL_LEVEL_OFFSET)}.")
+    js["outputs"] = list(SO.OUTPUTS)
+    js["temperatures"] = list(ST.TEMPERATURES)
+    js["statuses"] = list(SS.STATUSES)
+    need([(d.name, d.seconds, d.offset) for d in AL.DATETIME_INTERVALS] ==
+         [("year", 32140800, 2000), ("month", 2678400, 1), ("day", 86400, 1), ("hour", 3600, 0), ("minute", 60, 0), ("second", 1, 0)],
+         "alert datetime intervals")
+    need(AL.MAX_UINT32 == 4294967295, "MAX_UINT32")
+    from pyplumio.helpers import uid as UIDM
+    need(UIDM.CRC == 0xA3A3 and UIDM.POLYNOMIAL == 0xA001 and UIDM.BASE5_KEY == "0123456789ABCDEFGHIJKLMNZPQRSTUV", "uid constants")
+    from pyplumio.structures import regulator_data as RD
+    need(RD.REGDATA_VERSION == "1.0", "regdata version")
+    emit("")
+
     from pyplumio import const
     emit("Definition extra_device_states : list (N * N) := " +
          lst(f"({N(k)}, {N(int(v))})" for k, v in sorted(const.EXTRA_DEVICE_STATES.items())) + ".")
